@@ -6,7 +6,7 @@ GenDepth == IF "GEN_DEPTH" \in DOMAIN IOEnv THEN atoi(IOEnv.GEN_DEPTH) ELSE 24
 Ops == <<"create", "get", "get", "list", "listlabel", "listid", "strip", "update", "modify", "mdcopy", "mutate", "mutate", "mutate", "mutate", "watchget", "twinadd", "twinremadd">>
 (* finAdd is listed three times: two holders of one lineage both adding a finalizer is the case that tells copy-on-write from *)
 (* append-in-place                                                                                                          *)
-Fields == <<"labelSet", "labelDelete", "labelDo", "annotationSet", "annotationDelete", "finAdd", "finAdd", "finAdd", "finRemove", "finSet",
+Fields == <<"labelSet", "labelDelete", "labelDo", "labelDoDel", "annotationDo", "annotationSet", "annotationDelete", "finAdd", "finAdd", "finAdd", "finRemove", "finSet",
             "phase", "version", "owner", "spec">>
 Init == hist = <<>> /\ done = FALSE
 Step == \E op \in {Ops[RandomElement(1..Len(Ops))]}, h \in {RandomElement(1..4)}, g \in {RandomElement(1..4)},
